@@ -1656,7 +1656,11 @@ func physicalLines(r *an.Run, rule string) {
 		}
 	}
 	r.Count("physical-line consumers", n)
-	r.Min("physical-line consumers", 2)
+	if len(cleanupFuncs(r)) == 1 {
+		r.Min("physical-line consumers", 1) // command and library share the clean-up step
+	} else {
+		r.Min("physical-line consumers", 2)
+	}
 }
 
 func lastSegment(s string) string {
